@@ -333,16 +333,17 @@ def _case(spec: dict, tags: list[str]) -> dict:
 
 # input features under which an aspect is known to fail on the pinned tree: such cases are counted under
 # their own clause name '<clause>@<tags>' so that they neither hide nor crowd out the others
+# (note-dup and linear-core-wrap are still computed as a description of the case but no longer name a
+# clause: C10-F4 and C10-F11 are fixed in /repo, their cases are judged under the bare clause names again)
 RELEVANT = {
     "protoclusters": ["proto-tie", "whole-vs-origin", "side-proto"],
-    "candidates": ["proto-tie", "cand-tie", "whole-vs-origin", "linear-core-wrap"],
+    "candidates": ["proto-tie", "cand-tie", "whole-vs-origin"],
     "subregions": ["sub-tie", "whole-vs-origin"],
     "regions": ["proto-tie", "cand-tie", "sub-tie", "whole-vs-origin"],
     "area-members": ["proto-tie", "cand-tie", "sub-tie", "whole-vs-origin", "cds-link-miss", "cds-query-miss"],
-    "fixed-point-content": ["proto-tie", "cand-tie", "sub-tie", "whole-vs-origin", "side-proto", "linear-core-wrap"],
+    "fixed-point-content": ["proto-tie", "cand-tie", "sub-tie", "whole-vs-origin", "side-proto"],
     "fixed-point-order": ["prepeptide-rev", "prepeptide-origin", "prepeptide-partial"],
     "CDS-gene-functions": ["gf-colon"],
-    "CDS": ["note-dup"],
     "CDS_motif": ["prepeptide-rev", "prepeptide-origin", "prepeptide-partial"],
 }
 
@@ -350,8 +351,6 @@ RELEVANT = {
 def qualified(clause: str, tags: list[str]) -> str:
     aspect = clause.split("-", 1)[1]
     present = [tag for tag in RELEVANT.get(aspect, []) if tag in tags]
-    if clause == "json-CDS":
-        present = []        # the notes are repeated from the second conversion on, i.e. in the GenBank text
     return f"{clause}@{'+'.join(present)}" if present else clause
 
 
@@ -422,6 +421,7 @@ FINDING_CLASSES: dict[str, Any] = {
     # gene function text '<function> (<tool>) <id>: <description>' is parsed as product '<id>'
     "C10-F3": lambda clause, case: _known(clause, case, ("CDS-gene-functions",), ("gf-colon",)),
     # Feature.to_biopython extends the stored note list: every further conversion repeats feature.notes
+    # (repaired in /repo, ea1edb60: the tag no longer names a clause, the predicate cannot match)
     "C10-F4": lambda clause, case: clause.startswith("gbk-") and _known(clause, case, ("CDS",), ("note-dup",)),
     # prepeptide location is rebuilt from leader+core+tail: not merged on the reverse strand (F5), wrong
     # part order over the origin (F6, the C09 defect), partial codons / fuzzy ends lost (F7)
@@ -435,5 +435,6 @@ FINDING_CLASSES: dict[str, Any] = {
     # CDSCollection.__lt__ orders a whole-record area and an origin-spanning area both ways round
     "C10-F10": lambda clause, case: _known(clause, case, AREAS, ("whole-vs-origin",)),
     # CandidateCluster.from_biopython connects locations with wrap_point=len(record) on linear records too
+    # (repaired in /repo, 64dd6737: the tag no longer names a clause, the predicate cannot match)
     "C10-F11": lambda clause, case: _known(clause, case, ("candidates", "fixed-point-content"), ("linear-core-wrap",)),
 }
